@@ -126,7 +126,7 @@ theorem SoundSegs.v {x x' xs xs'} (ihx : SoundE Q cx D x x') (ihxs : SoundSegs Q
 
 /-! ### targets -/
 
-theorem SoundT.var {a : String} (ha : DName.ref a ∉ D) : SoundT Q cx D (.var a) (.var a) := by
+theorem SoundT.var {a : String} (ha : DName.ref a ∉ D ∧ DName.wat a ∉ D) : SoundT Q cx D (.var a) (.var a) := by
   intro N call ρ k env env' σ σ' β hp hs he; simp only [evalTarget]
   exact RRel.ok (A := ATarget D) ⟨rfl, ha⟩ hs
 
